@@ -5,6 +5,46 @@ VERIF = os.path.dirname(os.path.dirname(os.path.abspath(__file__)))
 BASELINE = "cd /repo && /venv/bin/python -m pytest -ra -q -p no:cacheprovider --timeout=900 --continue-on-collection-errors"
 
 CHECKS = {
+ 'C05': dict(level='model_checking',
+   text='Schedules are merge orders of per-thread event programs; every ordered pair and triple of 11 programs and EVERY interleaving (quick: 124k schedules; thorough: 14.4M) is fed to a fresh real TracesParser; per-thread projections and learned tables must equal the solo runs. The library has no real threads, so the explorer is the scheduler.',
+   note='Trusted: program library in checks/c05.py (programs whose text depends only on the thread\'s own records).',
+   technique='exhaustive enumeration of all interleavings of 2-3 per-thread programs on the real parser, differential against solo runs'),
+ 'C08': dict(level='model_checking',
+   text='Texts of every byte length 0..184 x 3 content patterns chunked kernel-style, stand-alone and inside each of the 66 path-taking decoders with k lookups and unrelated records in every gap; exactly one trace with exactly the text, path slots equal lookups in order.',
+   note='Trusted: kernel chunkers in mc/build.py and the frozen slot table mc/pathslots.json.',
+   technique='exhaustive enumeration of text lengths/boundary shapes x decoders on the real TracesParser'),
+ 'C11': dict(level='exploration',
+   text='Every subset of the declared bits (+2 undeclared) of each flag family, every value of each multi-bit field, both 16-bit halves of the ioctl word, read back from the rendering of a decoder that shows the family and compared with Darwin values.',
+   note='Trusted: mc/darwin.py transcription of the Darwin headers.',
+   technique='exhaustive enumeration of flag-word subsets and field values against Darwin constant tables'),
+ 'C13': dict(level='model_checking',
+   text='Streams of complete operations x all tid/process/class/subclass filter configurations (commutation with the unfiltered listing), and all request histories of length <=3 on one parser object (repeatability, no residue in the caller\'s settings, list and tuple typed).',
+   note='Trusted: reference predicate "first event satisfies the filter"; K3 (image lists persist across callstacks requests) is a known finding.',
+   technique='exhaustive configuration x request-history enumeration on the real facade, differential against fresh objects'),
+ 'C14': dict(level='model_checking',
+   text='All 2^6 column switch settings x colour x all streams of <=2/3 items over an alphabet with map-updating records x thread maps: column composition, colour invariance, and the process column against a reference table evolution.',
+   note='Trusted: table-evolution model in checks/c14.py.',
+   technique='exhaustive configuration x history enumeration on the real formatter with a reference table model'),
+ 'C15': dict(level='model_checking',
+   text='All histories of <=3/4 items over image announcements, launch windows and samples (31 item kinds) through TracesParser+CallstacksParser and the facade, plus all announcement permutations of <=4 images, against a linear-scan reference.',
+   note='Trusted: linear-scan reference in checks/c15.py.',
+   technique='exhaustive history enumeration on the real parsers with a linear-scan reference model'),
+ 'C16': dict(level='exploration',
+   text='Optional-key subsets (<=2/3 present, <=2/3 absent, full products over string and loss keys), timestamp corners, decomposed-message shapes, every defined trace-identifier word, decoded directly and inside a v3 dump, against an independent field map.',
+   note='Trusted: key->field map and firehose id layout transcribed in checks/c16.py. 2^31 subsets are not enumerable.',
+   technique='bounded exhaustive enumeration of key subsets / identifier words against a reference decoder'),
+ 'C18': dict(level='model_checking',
+   text='13 host configurations (real + Darwin/FreeBSD-like/empty tables, one seam at a time and all together) x every BSD decoder x error codes 0..255, signals, families x types, socket options: text must not change; plus a static scan of imports for unmodelled host-dependent modules. The 7 known host-table call sites are KNOWN-FINDINGs; anything else is a violation.',
+   note='Trusted: host model = the three interpreter tables bsd.py imports + import scan.',
+   technique='exhaustive configuration enumeration (host table substitution) on the real decoders, differential across configurations'),
+ 'C19': dict(level='exploration',
+   text='All code-table texts of <=3 lines over a line grammar against an independent parser; 101 supplied tables (single edits of the bundled one) x operation streams: listing names from the supplied table, decoding equal to decoding of the id-renamed stream under the bundled table.',
+   note='Trusted: independent parser mc/ref.py; metamorphic reference is the tool itself on the renamed stream.',
+   technique='exhaustive enumeration of table texts and table edits x streams, metamorphic differential'),
+ 'C20': dict(level='model_checking',
+   text='All nested sequences (<=3/4) of relevant and unrelated records in page-fault, launch and sampler windows x END results, fault types, protection bytes, flag sets, header counts; fields compared with the statement\'s rules.',
+   note='Trusted: oracle transcribed from the statement in checks/c20.py.',
+   technique='exhaustive enumeration of window contents on the real TracesParser with a reference oracle'),
  'C07': dict(level='fault_enumeration',
    text='For each of the 469 registered decoders: full-context windows of individually in-domain events, with every subset of the window dropped, every single duplication, every insertion of an undecoded/unrelated record, lone NONE/ALL, 3- and 6-lookup windows with every dropped prefix, every enum member; thorough adds nesting/crossing with 8 composite outer windows and more word sets. The real pipeline must consume each history and render every trace.',
    note='Trusted: frozen in-domain table mc/domains.json (generated once at the pinned commit by trial decoding, reviewed). Only omission/duplication/insertion faults of the stated windows are covered.',
